@@ -140,7 +140,42 @@ NEGATIVE = [
 ]
 
 # generic functions instantiated from another module than the one that declares them
-MODULE_PROGRAMS = [
+def _scoping_programs():
+    """a generic function's body names things of its declaring module; the calling module has other things under the same
+    names: the generic call behaves like the specialisation written in the declaring module"""
+    H = 'Binde "Duden/Ausgabe" ein.\n'
+    out = []
+    kinds = {
+        "type-alias": ("Wir nennen eine Zahl auch eine Menge.\n", "Wir nennen eine Kommazahl auch eine Menge.\nDie Menge eigene ist 2,5.\nSchreibe eigene auf eine Zeile.\n",
+                       "\tDie Menge g ist a als Menge.\n\tGib g als Text zurück.\n", "7,75", "2.5\n7\n7\n7\n"),
+        "type-definition": ("Wir definieren eine Menge als eine Zahl.\n", "Wir definieren eine Menge als eine Kommazahl.\nDie Menge eigene ist 2,5 als Menge.\nSchreibe (eigene als Kommazahl) auf eine Zeile.\n",
+                            "\tDie Menge g ist (a als Zahl) als Menge.\n\tGib (g als Zahl) als Text zurück.\n", "7,75", "2.5\n7\n7\n7\n"),
+        "kombination": ('Wir nennen die Kombination aus\n\tder Zahl wert mit Standardwert 1,\neine Menge, und erstellen sie so:\n\t"eine Menge von <wert>"\n',
+                        'Wir nennen die Kombination aus\n\tdem Text wert mit Standardwert "eigen",\neine Menge, und erstellen sie so:\n\t"eine Menge mit <wert>"\n'
+                        'Die Menge eigene ist eine Menge mit "e".\nSchreibe (wert von eigene) auf eine Zeile.\n',
+                        "\tDie Menge g ist eine Menge von (a als Zahl).\n\tGib (wert von g) als Text zurück.\n", "7,75", "e\n7\n7\n7\n"),
+        "global-variable": ("Die Zahl menge ist 100.\n", "Die Zahl menge ist 5.\nSchreibe menge auf eine Zeile.\n",
+                            "\tGib ((a als Zahl) plus menge) als Text zurück.\n", "7,75", "5\n107\n107\n107\n"),
+        "constant": ("Die Konstante MENGE ist 100.\n", "Die Konstante MENGE ist 5.\nSchreibe MENGE auf eine Zeile.\n",
+                     "\tGib ((a als Zahl) plus MENGE) als Text zurück.\n", "7,75", "5\n107\n107\n107\n"),
+        "private-function": ('Die Funktion hilfe mit dem Parameter n vom Typ Zahl, gibt eine Zahl zurück, macht:\n\tGib n plus 100 zurück.\nUnd kann so benutzt werden:\n\t"die Hilfe für <n>"\n',
+                             'Die Funktion hilfe mit dem Parameter n vom Typ Zahl, gibt eine Zahl zurück, macht:\n\tGib n plus 5 zurück.\nUnd kann so benutzt werden:\n\t"meine Hilfe für <n>"\n'
+                             'Schreibe (meine Hilfe für 0) auf eine Zeile.\n',
+                             "\tGib (die Hilfe für (a als Zahl)) als Text zurück.\n", "7,75", "5\n107\n107\n107\n"),
+    }
+    for name, (libdecl, maindecl, body, arg, want) in kinds.items():
+        lib = (H + libdecl + "\nDie öffentliche generische Funktion gerundet mit dem Parameter a vom Typ T, gibt einen Text zurück, macht:\n" + body +
+               'Und kann so benutzt werden:\n\t"<a> gerundet"\n\n'
+               "Die öffentliche Funktion gerundet_kommazahl mit dem Parameter a vom Typ Kommazahl, gibt einen Text zurück, macht:\n" + body +
+               'Und kann so benutzt werden:\n\t"<a> als Kommazahl gerundet"\n\n'
+               'Die öffentliche Funktion im_modul mit dem Parameter a vom Typ Kommazahl, gibt einen Text zurück, macht:\n\tGib a gerundet zurück.\nUnd kann so benutzt werden:\n\t"<a> im Modul gerundet"\n')
+        main = (H + 'Binde gerundet, gerundet_kommazahl und im_modul aus "lib" ein.\n' + maindecl +
+                "Schreibe (%s als Kommazahl gerundet) auf eine Zeile.\nSchreibe (%s im Modul gerundet) auf eine Zeile.\nSchreibe (%s gerundet) auf eine Zeile.\n" % (arg, arg, arg))
+        out.append(("names-of-the-declaring-module:" + name, {"lib.ddp": lib, "main.ddp": main}, want))
+    return out
+
+
+MODULE_PROGRAMS = _scoping_programs() + [
     ("aliases-of-the-instantiating-module", {
         "lib.ddp": 'Die öffentliche generische Funktion zweimal mit dem Parameter x vom Typ T, gibt nichts zurück, macht:\n\tMelde x.\n\tMelde x.\nUnd kann so benutzt werden:\n\t"Verarbeite <x> doppelt"\n',
         "main.ddp": 'Binde "Duden/Ausgabe" ein.\nBinde "lib" ein.\n\nDie Funktion melde_zahl mit dem Parameter z vom Typ Zahl, gibt nichts zurück, macht:\n\tSchreibe "Meldung: ".\n\tSchreibe z auf eine Zeile.\n'
